@@ -12,7 +12,7 @@
    PARTIAL.  Proved here, for the model:
      - classification / totality / truthfulness of the workflow layer for EVERY
        assignment of end states (finished r | cancelled | raised) to the step
-       tasks and every plan of task-group aborts (C09_pass_total_printable,
+       tasks and every plan of task-group aborts (C09_pass_total,
        C09_faulted_step_error, C09_dependents_not_run, C09_overall_not_ok,
        C09_conditions_truthful, the C09_foreach theorems),
      - for ONE ResourceFunction: the result and the cluster content after a pass
@@ -28,12 +28,12 @@
    exception object with bool(exc) = False then escaped reconcile_workflow.
    Repaired in /repo by "fix: a step that raises an exception object with a false
    truth value is reported as Retry"; the model follows the repaired code and
-   the truth value no longer matters.  Regression: corpus/C09/02, 04.)
-   REFUTED for one exotic fault (known finding): the Retry message of a crashed
-   step is an f-string containing the exception, built after the TaskGroup and
-   outside any try; an exception OBJECT whose __str__ raises therefore makes
-   reconcile_workflow raise (C09_pass_total_refuted).  Every theorem about
-   raised exceptions assumes str(exception) returns ([printable_end]). *)
+   the truth value no longer matters.  Regression: corpus/C09/02, 04.
+   Likewise the Retry message of a crashed step used to be an f-string containing
+   the exception, built after the TaskGroup and outside any try, so an exception
+   object whose __str__ raises escaped; repaired by "fix: an exception whose
+   __str__ raises no longer escapes reconcile_workflow" (_error_text).
+   Regression: corpus/C09/11, 12.)  C09_pass_total is unconditional. *)
 From Koreo Require Import Json Outcome Outcome_proofs Payload ResourceFn Faults Faults_proofs.
 From Coq Require Import Lia.
 Local Open Scope nat_scope.
@@ -42,23 +42,17 @@ Local Open Scope list_scope.
 (* ---------------- the workflow layer ---------------- *)
 
 (* "a Workflow reconcile pass returns normally": whatever way the step tasks
-   ended (returned anything / cancelled / raised an exception object, truthy or
-   falsy), classification yields a Result — nothing is raised: task.result() is
-   reached only for a task that returned; the one remaining raising operation
-   is str(exception) in the message, assumed to return *)
-Theorem C09_pass_total_printable : forall ws ends,
-  Forall printable_end ends -> exists r, reconcile_workflow_m ws ends = WDone r.
+   ended (returned anything / cancelled / raised ANY exception object — falsy,
+   without args, with a raising __str__ ...), classification yields a Result —
+   nothing is raised: the only raising operation, task.result(), is reached only
+   for a task that returned, and messages are built by _error_text *)
+Theorem C09_pass_total : forall ws ends, exists r, reconcile_workflow_m ws ends = WDone r.
 Proof. exact reconcile_workflow_total. Qed.
-
-(* ... and it is false without that assumption *)
-Theorem C09_pass_total_refuted : exists ws ends, reconcile_workflow_m ws ends = WRaised.
-Proof. eexists; eexists; exact reconcile_workflow_unprintable_raises. Qed.
 
 (* the same for a whole pass: every plan of aborts and of ways the steps' own
    work ends (returned / cancelled / raised), propagated through the
    dependency gates *)
-Theorem C09_pass_total_plan : forall ws ps,
-  Forall (fun p => printable_end (p_logic p)) ps -> exists r, fst (run_workflow ws ps) = WDone r.
+Theorem C09_pass_total_plan : forall ws ps, exists r, fst (run_workflow ws ps) = WDone r.
 Proof. exact run_workflow_total. Qed.
 
 (* "the affected step is reported as Retry": a step whose task was cancelled
@@ -70,7 +64,7 @@ Theorem C09_faulted_step_error : forall ws ends r k e,
   nth_error ends k = Some e -> is_fault_end e = true ->
   exists d m l, nth_error (wr_outcomes r) k = Some (UOut (Retry d m l)) /\
                 (e = Cancelled -> d = TIMEOUT_RETRY_DELAY) /\
-                (e = Excepted true -> d = UNKNOWN_ERROR_RETRY_DELAY).
+                (e = Excepted -> d = UNKNOWN_ERROR_RETRY_DELAY).
 Proof. exact faulted_step_error. Qed.
 
 (* "steps that need it are not run": a step that needs — directly or through
@@ -121,17 +115,16 @@ Proof. exact condition_helper_ready_iff. Qed.
 
 (* forEach: the classification of the iteration tasks never raises, and one
    cancelled / crashed iteration makes the whole step Retry or PermFail *)
-Theorem C09_foreach_total : forall ends,
-  Forall printable_end ends -> exists o, foreach_result ends = WDone o.
+Theorem C09_foreach_total : forall ends, exists o, foreach_result ends = WDone o.
 Proof. exact foreach_total. Qed.
 
 Theorem C09_foreach_fault_error : forall ends e,
-  Forall printable_end ends -> In e ends -> is_fault_end e = true ->
+  In e ends -> is_fault_end e = true ->
   exists o, foreach_result ends = WDone (UOut o) /\ is_error o = true.
 Proof. exact foreach_fault_error. Qed.
 
 Theorem C09_foreach_error_item : forall ends r,
-  Forall printable_end ends -> In (Finished r) ends -> sres_error r = true ->
+  In (Finished r) ends -> sres_error r = true ->
   exists o, foreach_result ends = WDone (UOut o) /\ is_error o = true.
 Proof. exact foreach_error_item. Qed.
 
@@ -213,13 +206,13 @@ Definition ex_ws : list wstep :=
     {| w_deps := [1]; w_cond := None |};
     {| w_deps := []; w_cond := None |} ].
 Definition ex_ps : list splan :=
-  [ {| p_abort := false; p_logic := Excepted true |};
+  [ {| p_abort := false; p_logic := Excepted |};
     {| p_abort := false; p_logic := Finished (UVal (JInt 1)) |};
     {| p_abort := false; p_logic := Finished (UVal (JInt 2)) |};
     {| p_abort := false; p_logic := Cancelled |} ].
 
 Example C09_nonvacuous_workflow :
-  run_steps ex_ws ex_ps = ([Excepted true; Excepted true; Excepted true; Cancelled], [0; 3]) /\
+  run_steps ex_ws ex_ps = ([Excepted; Excepted; Excepted; Cancelled], [0; 3]) /\
   wf_steps ex_ws /\ needs ex_ws 2 0 /\
   exists r, fst (run_workflow ex_ws ex_ps) = WDone r /\
     map reason_of (wr_outcomes r) = ["Wait"; "Wait"; "Wait"; "Wait"]%string /\
@@ -234,6 +227,13 @@ Proof.
                         |eapply (needs_direct ex_ws 1 _ 0); [reflexivity|now left]]. }
   eexists. split; [reflexivity|]. repeat split.
 Qed.
+
+(* regression of the two repaired escapes: a lone step whose task raised — whatever
+   the exception object — is classified, not re-raised *)
+Example C09_crashed_step_is_classified :
+  exists r, reconcile_workflow_m [{| w_deps := []; w_cond := None |}] [Excepted] = WDone r /\
+            wr_outcomes r = [error_outcome] /\ wr_overall r = error_outcome.
+Proof. eexists. repeat split. Qed.
 
 (* a dependent of a step that merely REPORTS Retry is DepSkip and not run *)
 Example C09_nonvacuous_depskip :
@@ -289,8 +289,7 @@ Proof.
   eexists. repeat split; vm_compute; reflexivity.
 Qed.
 
-Print Assumptions C09_pass_total_printable.
-Print Assumptions C09_pass_total_refuted.
+Print Assumptions C09_pass_total.
 Print Assumptions C09_pass_total_plan.
 Print Assumptions C09_faulted_step_error.
 Print Assumptions C09_dependents_not_run.
